@@ -153,10 +153,13 @@ theorem stale_reply_into_next_connection :
       ∧ ∃ s', run .current s [.connect, .prx true, .prx true, .prx true] = some s' ∧ s'.out = [.reply] ∧ s'.fed = [] := by
   refine ⟨_, rfl, ?_, ?_, ?_, ?_, _, rfl, ?_⟩ <;> decide +kernel
 
-/-! ## the stop-flag handshakes of the TCP connection classes (F-13, still present: `open:` finding `c09-tcp-disable-hang`) -/
+/-! ## the stop-flag handshakes of the TCP connection classes
+
+The code that exists is `fixed = true` (repair 1a14b53).  First the claimed theorems for it, then the regression witnesses for the handshake
+before the repair (F-13, `fixed:` `c09-tcp-disable-hang`, `c09-tcp-server-idle-disable-hang`). -/
 
 open SecsModel.Model.TcpStop in
-/-- **witness, client** (`TcpClientConnection`): `enable()`; the connect thread connects and is running the `on_connected` listeners when
+/-- **regression witness, client, before the repair** (`TcpClientConnection`): `enable()`; the connect thread connects and is running the `on_connected` listeners when
 `disable()` is called: `disable()` sets `stop_connection_thread` (the thread is alive) and waits for the thread to reset it; the thread
 returns from `__connect` and ends without looking at the flag.  `disable()` is stuck. -/
 theorem client_disable_hang :
@@ -200,7 +203,7 @@ theorem client_stuck_forever (s s' : Client.St) (ls : List Client.Lbl) (h : Clie
     | some s1 => rw [hs] at hr; exact ih s1 (one s s1 l h hs) hr
 
 open SecsModel.Model.TcpStop in
-/-- **witness, server** (`TcpServerConnection`): a peer connects, the server thread accepts and is running the `on_connected` listeners when
+/-- **regression witness, server, before the repair** (`TcpServerConnection`): a peer connects, the server thread accepts and is running the `on_connected` listeners when
 `disable()` is called: `disable()` sets `_stop_server_thread`, closes the listening socket and waits; the thread goes on to
 `shutdown()`/`close()` of the (already closed) socket and ends — the flag is never reset.  `disable()` is stuck. -/
 theorem server_disable_hang :
@@ -209,7 +212,7 @@ theorem server_disable_hang :
   refine ⟨_, rfl, ?_⟩; decide +kernel
 
 open SecsModel.Model.TcpStop in
-/-- **witness, server, second window**: `disable()` right after `enable()`, between the first test of the stop flag and the first `select`:
+/-- **regression witness, server, second window, before the repair**: `disable()` right after `enable()`, between the first test of the stop flag and the first `select`:
 `select` on the closed socket raises, the exception is logged, `select_result` is unbound, the thread dies with `UnboundLocalError` -/
 theorem server_disable_hang_first_select :
     ∃ s, Server.run false Server.St.init [.thr true, .thr true, .app, .app, .app, .thr false] = some s
@@ -217,7 +220,7 @@ theorem server_disable_hang_first_select :
   refine ⟨_, rfl, ?_⟩; decide +kernel
 
 open SecsModel.Model.TcpStop in
-/-- **witness, server, idle** (no peer at all): `enable()`, the server thread waits in `select`; `disable()` sets the flag and closes the
+/-- **regression witness, server, idle, before the repair** (no peer at all): `enable()`, the server thread waits in `select`; `disable()` sets the flag and closes the
 listening socket; the `select` returns the closed socket as readable, `accept()` raises `EBADF`, the thread dies — the flag is never reset -/
 theorem server_disable_hang_idle :
     ∃ s, Server.run false Server.St.init [.thr true, .thr true, .app, .app, .app, .thr true, .thr true] = some s
@@ -258,9 +261,9 @@ theorem server_stuck_forever (s s' : Server.St) (ls : List Server.Lbl) (h : Serv
     | none => rw [hs] at hr; cases hr
     | some s1 => rw [hs] at hr; exact ih s1 (one s s1 l h hs) hr
 
-/-! ### the patched handshakes (`proposals/C09-tcp-disable-hang.diff`): not a claim about the code that exists -/
+/-! ### the handshakes that exist -/
 
-namespace Patched
+namespace Handshake
 open SecsModel.Model.TcpStop
 
 def cSucc (s : Client.St) : List Client.St := Client.labels.filterMap (Client.step true s)
@@ -283,13 +286,14 @@ def sRank (s : Server.St) : Nat :=
   (match s.thr with | .bind => 10 | .select => 9 | .accept => 7 | .up => 6 | .listen => 3 | .shutdown => 2 | .loop => 1 | .dead => 0)
   + (match s.rcv with | .run => 2 | .closing => 1 | .off => 0)
 
-end Patched
+end Handshake
 
-open SecsModel.Model.TcpStop Patched in
-/-- **patched client handshake**: the listed states are closed under every step (so they contain every reachable state), none of them is
-hung, and while `disable()` waits (`spin` for the connect thread, `discWait` for the receiver thread) every step of the awaited thread
-decreases its rank — so under weak fairness `disable()` returns. -/
-theorem patched_client_no_hang :
+open SecsModel.Model.TcpStop Handshake in
+/-- **`TcpClientConnection.disable()` returns** (under weak fairness): the listed states are closed under every step of every thread and of
+the peer (so they contain every reachable state, whenever `disable()` is called — also inside the `on_connected` window), none of them is
+hung (the application thread inside `disable()` with no thread able to move), and while `disable()` waits (`spin` for the connect thread,
+`discWait` for the receiver thread) every step of the awaited thread decreases its rank. -/
+theorem client_disable_returns :
     Client.St.init ∈ cReach
     ∧ (∀ s ∈ cReach, ∀ l ∈ Client.labels, ∀ s', Client.step true s l = some s' → s' ∈ cReach)
     ∧ (∀ s ∈ cReach, cHung s = false)
@@ -297,9 +301,10 @@ theorem patched_client_no_hang :
     ∧ (∀ s ∈ cReach, s.app = .discWait → ∀ s', Client.step true s .rcv = some s' → cRank s' < cRank s) := by
   decide +kernel
 
-open SecsModel.Model.TcpStop Patched in
-/-- **patched server handshake**: same statement -/
-theorem patched_server_no_hang :
+open SecsModel.Model.TcpStop Handshake in
+/-- **`TcpServerConnection.disable()` returns** (under weak fairness): same statement; the reachable states include `disable()` with no peer
+(listening socket closed under `select`), inside the `on_connected` window and before the first `select` -/
+theorem server_disable_returns :
     Server.St.init ∈ sReach
     ∧ (∀ s ∈ sReach, ∀ l ∈ Server.labels, ∀ s', Server.step true s l = some s' → s' ∈ sReach)
     ∧ (∀ s ∈ sReach, sHung s = false)
